@@ -162,6 +162,10 @@ def gen_coeff_keys(info):
            "def requiredCoeffKeys : List String := %s\n" % llist([lstr(k) for k in required], per_line=3),
            "def coeffKeyTable : List (String × List String) := %s\n" % llist(
                ["(%s, [%s])" % (lstr(s), ", ".join(lstr(k) for k in ks)) for s, ks in rows]),
+           "/-- (family, header spacecraft id, pygac name, pyorbital name) as the readers' tables map them -/\n"
+           "def spacecraftIdTable : List (String × Nat × String × String) := %s\n" % llist(
+               ["(%s, %d, %s, %s)" % (lstr(fam), sid, lstr(cls.spacecraft_names[sid]), lstr(cls.spacecrafts_orbital.get(sid, "?")))
+                for fam, cls in (("klm", KLMReader), ("pod", PODReader)) for sid in sorted(cls.spacecraft_names)]),
            "def shippedMd5 : String := %s\n" % lstr(md5),
            "def coeffDuplicateKeys : List String := %s\n" % llist([lstr(k) for k in dups]),
            "def versionHashes : List (String × String) := %s\n" % llist(["(%s, %s)" % (lstr(h), lstr(n)) for h, n in hashes]),
